@@ -182,6 +182,9 @@ func importSets(pkg *Pkg) (plain, all map[*Pkg]bool) {
 
 // visibility of annotations of package d from file f: "yes", "no" or "variant"
 // (only the test variant of the package imports d).
+// Visible is visible() for harness classification.
+func Visible(d *Pkg, ctx Ctx) string { return visible(d, ctx) }
+
 func visible(d *Pkg, ctx Ctx) string {
 	f := ctx.File
 	if f.Kind == FileXTest {
